@@ -121,6 +121,7 @@ impl GraphRunner for Graph {
             if self.cancel_token.is_canceled() {
                 break;
             }
+            let activity_before = crate::circular_buffer::activity();
             for (n, b) in self.blocks.iter_mut().enumerate() {
                 if eof[n] {
                     continue;
@@ -166,10 +167,15 @@ impl GraphRunner for Graph {
                     info!("{} EOF, exiting", name);
                 }
             }
-            if done {
+            // If data moved on any stream during this pass then some block may
+            // be able to continue, whatever status the blocks returned: a block
+            // can move data and then report that it's waiting, and blocks are
+            // not necessarily called in the order the data flows.
+            let progressed = crate::circular_buffer::activity() != activity_before;
+            if done && !progressed {
                 break;
             }
-            if all_idle {
+            if all_idle && !progressed {
                 let idle_sleep = std::time::Duration::from_millis(10);
                 trace!("No output or consumption from any block. Sleeping a bit.");
                 std::thread::sleep(idle_sleep);
